@@ -65,6 +65,151 @@ def finding(fid):
     return False, {}, "unknown finding"
 
 
+
+# ------------------------------------------------------ cost amplifiers --
+def _nested_png(k):
+    """k PNG signatures, each opening one chunk that ends exactly in front of one shared IEND chunk: every signature carves a PNG
+    that reaches to the end, so overlapping carving copies ~k/2 times the input."""
+    import struct
+    sig = b"\x89PNG\r\n\x1a\n"
+    P = 16 * k + 4
+    out = bytearray()
+    for j in range(k):
+        out += sig + struct.pack(">I", P - 4 - 16 * (j + 1)) + b"daTa"
+    out += b"\0\0\0\0" + struct.pack(">I", 0) + b"IEND" + b"\0\0\0\0"
+    return bytes(out)
+
+
+def amp_png():
+    from sharepoint2text.parsing.extractors.ms_legacy.doc_extractor import _DocReader
+    data = _nested_png(600)
+    imgs = _DocReader._extract_png_images_from_bytes(data)
+    total = sum(len(i.data) for i in imgs)
+    return total > 4 * len(data), {"builder": "600 nested PNG signatures sharing one IEND chunk", "input_bytes": len(data)}, \
+        f"{len(imgs)} carved images, {total} bytes of image data from {len(data)} input bytes"
+
+
+def _overlapping_dibs(k, claimed):
+    """k BITMAPINFOHEADERs (1x1, 24 bpp, uncompressed) 48 bytes apart, each claiming `claimed` bytes of pixel data."""
+    import struct
+    out = bytearray()
+    for j in range(k):
+        out += struct.pack("<IiiHHIIiiII", 40, 1, 1, 1, 24, 0, claimed, 2835, 2835, 0, 0) + bytes([j & 255, (j >> 8) & 255, 7, 0]) + b"\0\0\0\0"
+    out += b"\0" * (claimed + 64)
+    return bytes(out)
+
+
+def amp_dib():
+    from sharepoint2text.parsing.extractors.ms_legacy.doc_extractor import _DocReader
+    fn = getattr(_DocReader, "_extract_images_from_word_document", None)
+    if fn is None:
+        return False, {}, "no _extract_images_from_word_document"
+    best = (False, {}, "no amplification")
+    for k, claimed in ((300, 20000), (300, 14400)):
+        data = _overlapping_dibs(k, claimed)
+        try:
+            imgs = fn(data)
+        except Exception as e:  # noqa
+            continue
+        total = sum(len(i.data or b"") for i in imgs)
+        if total > 4 * len(data):
+            return True, {"builder": f"{k} 1x1 DIB headers 48 bytes apart, biSizeImage={claimed}", "input_bytes": len(data)}, \
+                f"{len(imgs)} images, {total} bytes of image data from {len(data)} input bytes"
+        best = (False, {"input_bytes": len(data)}, f"{len(imgs)} images, {total} bytes from {len(data)} input bytes")
+    return best
+
+
+def _nested_ppt(k, rec_type, inst=0):
+    import struct
+    out = bytearray()
+    for j in range(k):
+        out += struct.pack("<HHI", 0x000F | (inst << 4), rec_type, 8 * (k - j - 1))
+    return bytes(out)
+
+
+def amp_ppt():
+    from sharepoint2text.parsing.extractors.ms_legacy import ppt_extractor as P
+    k = 400
+    data = _nested_ppt(k, P.RT_SLIDE_LIST_WITH_TEXT)
+    copied = sum(len(r.data) for r in P._iter_records(data))
+    real = P._iter_records
+    count = [0]
+
+    def counting(*a, **kw):
+        for r in real(*a, **kw):
+            count[0] += 1
+            yield r
+    P._iter_records = counting
+    try:
+        P._extract_slide_list_texts(data)
+    finally:
+        P._iter_records = real
+    bad = copied > 4 * len(data) or count[0] > 8 * k
+    return bad, {"builder": f"{k} nested SlideListWithText containers ({len(data)} bytes)"}, \
+        f"_iter_records copied {copied} bytes of record data; _extract_slide_list_texts visited {count[0]} records for {k} records in the stream"
+
+
+def _scaling(fn, make, n1, n2):
+    import time
+    def t(n):
+        data = make(n)
+        best = None
+        for _ in range(3):
+            t0 = time.perf_counter()
+            fn(data)
+            d = time.perf_counter() - t0
+            best = d if best is None or d < best else best
+        return best, len(data)
+    a, la = t(n1)
+    b, lb = t(n2)
+    return a, b, la, lb
+
+
+def amp_mbox():
+    from sharepoint2text.parsing.extractors.mail import mbox_email_extractor as M
+    def make(n):
+        return b"".join(b"From a@b.c Thu Jan  1 00:00:00 2020\nSubject: s%d\n\nbody %d\n\n" % (i, i) for i in range(n))
+    split = getattr(M, "_split_mbox_messages", None)
+    if split is None:
+        return False, {}, "no _split_mbox_messages"
+    a, b, la, lb = _scaling(lambda d: list(split(d)), make, 4000, 32000)
+    ratio = b / max(a, 1e-6)
+    return ratio > 24 and b > 0.5, {"builder": "mbox of n two-line messages, n = 4000 and 32000"}, \
+        f"splitting {la} bytes took {a:.3f}s, {lb} bytes took {b:.3f}s (x{ratio:.1f} for x8 input)"
+
+
+def amp_xml():
+    """An internal entity in a ZIP part: refused by defusedxml at any part size; an expanding parser multiplies it."""
+    import io as _io
+    import zipfile as _zf
+    from sharepoint2text.parsing.extractors.open_office.ods_extractor import read_ods
+    ent = "A" * 1000
+    for pad in (0, 1_200_000):
+        content = (f'<?xml version="1.0"?><!DOCTYPE d [<!ENTITY a "{ent}">]><!--{"x" * pad}-->'
+                   f'<office:document-content {NS}><office:body><office:spreadsheet><table:table table:name="S"><table:table-row>'
+                   f'<table:table-cell office:value-type="string"><text:p>{"&a;" * 3000}</text:p></table:table-cell></table:table-row></table:table>'
+                   f'</office:spreadsheet></office:body></office:document-content>')
+        buf = _io.BytesIO()
+        with _zf.ZipFile(buf, "w", _zf.ZIP_STORED) as z:       # stored: stays below the compression-ratio guard
+            z.writestr("mimetype", "application/vnd.oasis.opendocument.spreadsheet")
+            z.writestr("content.xml", content)
+            z.writestr("META-INF/manifest.xml", '<?xml version="1.0"?><manifest:manifest xmlns:manifest="urn:oasis:names:tc:opendocument:xmlns:manifest:1.0"/>')
+        try:
+            r = list(read_ods(_io.BytesIO(buf.getvalue()), "a.ods"))
+            n = len(r[0].get_full_text()) if r else 0
+        except Exception:  # noqa
+            continue
+        if n >= 3000 * len(ent):
+            return True, {"builder": f"ODS content.xml of {len(content)} bytes with <!ENTITY a '{len(ent)} x A'> referenced 3000 times"}, \
+                f"entity references were expanded: {n} characters of text from a {len(content)}-byte part ({len(buf.getvalue())}-byte file)"
+    return False, {}, "entity declarations are refused at both part sizes"
+
+
+AMPLIFIERS = (("_extract_png_images_from_bytes/amp-bounded#carve", amp_png), ("_extract_images_from_word_document/amp-bounded#carve", amp_dib),
+              ("ppt_extractor.py::_iter_records/amp-bounded#carve", amp_ppt), ("ppt_extractor.py::*/amp-bounded#nested-scans", amp_ppt),
+              ("mbox_email_extractor.py::*/amp-bounded#no-self-suffix", amp_mbox), ("policy#xml-parsed", amp_xml))
+
+
 def limits():
     import sharepoint2text
     from sharepoint2text.parsing.exceptions import ExtractionFileTooLargeError
@@ -112,6 +257,19 @@ def find(req):
         r["reproduced"] = True
         return r
     ob = req.get("obligation", "")
+    for key, fn in AMPLIFIERS:
+        if key in ob:
+            ok, inputs, obs = fn()
+            if ok:
+                return {"reproduced": True, "target": ob, "inputs": inputs, "observed": obs,
+                        "expected": "work and output bounded by a fixed multiple of the input size"}
+            return {"reproduced": False, "note": obs}
+    if "out-of-subset" in ob or not ob:
+        for key, fn in AMPLIFIERS:
+            ok, inputs, obs = fn()
+            if ok:
+                return {"reproduced": True, "target": key, "inputs": inputs, "observed": obs,
+                        "expected": "work and output bounded by a fixed multiple of the input size"}
     for fid, key in (("F11-cell-repeat", "amp-bounded#repeat-site"), ("F11-row-repeat", "amp-bounded#repeat-site"), ("F11-text-s", "_append_element_text/amp-bounded"),
                      ("F12-7z-oversize-members-decompressed", "oversize-members-are-not-decompressed")):
         if key in ob:
